@@ -77,3 +77,7 @@ func __base[T any](s []T) uintptr {
 func __called(name string) bool { return false }
 
 func __failed(name string) bool { return false }
+
+// __fresh: the slice is nil or its backing array was allocated by the
+// function under verification (verifier only).
+func __fresh[T any](s []T) bool { return true }
